@@ -55,7 +55,7 @@ func newEnv(outDir string) (*env, error) {
 	e := &env{dir: filepath.Join(abs, "work")}
 	_ = os.RemoveAll(e.dir)
 	_ = os.MkdirAll(e.dir, 0o755)
-	e.regbot = filepath.Join(filepath.Dir(abs), "bin", "regbot")
+	e.regbot = lib.FindBin(abs, "regbot")
 	e.mr = memreg.New("local", memreg.Features{Delete: true, TagDelete: true, ReferrersAPI: true})
 	conf := []byte(`{"architecture":"amd64","os":"linux","config":{},"rootfs":{"type":"layers","diff_ids":[]}}`)
 	layer := []byte("not really a tar")
@@ -201,6 +201,10 @@ func (e *env) apiScripts() []Script {
 		{"blob-head", fmt.Sprintf(`b = blob.head("%s", "%s")`, R, e.blobDigest())},
 		{"blob-put", fmt.Sprintf(`blob.put("%s", "new blob content from a script")`, T)},
 		{"blob-put-layout", fmt.Sprintf(`blob.put("%s", "new blob content from a script")`, L)},
+		// the documented content kinds of blob.put besides a string: another blob, an image config
+		{"blob-put-blob", fmt.Sprintf(`b = blob.get("%s", "%s"); blob.put("%s", b)`, R, e.blobDigest(), T)},
+		{"blob-put-blob-layout", fmt.Sprintf(`b = blob.get("%s", "%s"); blob.put("%s", b)`, R, e.blobDigest(), L)},
+		{"blob-put-config", fmt.Sprintf(`m = manifest.get("%s:v1"); c = image.config(m); blob.put("%s", c)`, R, T)},
 		{"manifest-put", fmt.Sprintf(`m = manifest.get("%s:v1"); manifest.put(m, "%s:copied")`, R, R)},
 		{"manifest-put-layout", fmt.Sprintf(`m = manifest.get("%s:v1"); manifest.put(m, "%s:copied")`, L, L)},
 		{"manifest-delete", fmt.Sprintf(`m = manifest.get("%s:v2"); m:delete()`, R)},
